@@ -47,8 +47,8 @@ func c14Keys() []string {
 		long(p36, 236, 'b'),                    // … that is also the first directory of this fragmented key
 		long("k191-", 191, 'x'),                // 255 encoded characters: longest unfragmented name
 		long("k192-", 192, 'y'),                // 256 encoded characters: shortest fragmented name
-		long("http://h/216-", 216, 'z'),        // encoding ends exactly on a fragment boundary (6 x 48) …
-		long("http://h/216-", 216, 'z') + "#0", // … and its extension needs the last fragment as a directory
+		long("http://h/282-", 282, 'z'),        // 376 encoded characters: ends exactly on a fragment boundary (8 x 47), no partial base64 group …
+		long("http://h/282-", 282, 'z') + "#0", // … so the encoding of its extension starts with it and needs the last fragment as a directory
 		long(p36, 300, 'c'),                    // shares its first fragment with two other keys
 		string(all),                            // every byte value
 		"",                                     // the empty key
@@ -209,6 +209,21 @@ func keyName(k string) string {
 
 // c14Compare checks every Get, every listing and the maintenance API against the model.
 func c14Compare(in *c14Inst, model map[string][]byte, keys []string) string {
+	// buffers handed out by Get belong to the caller: they must survive later Gets of any key
+	held := map[string][]byte{}
+	for _, k := range keys {
+		if v, err := in.conn.Get(k); err == nil {
+			held[k] = v
+		}
+	}
+	for _, k := range keys {
+		_, _ = in.conn.Get(k)
+	}
+	for k, v := range held {
+		if want, live := model[k]; live && !bytes.Equal(v, want) {
+			return fmt.Sprintf("Get(%s): the returned buffer changed after later Gets (now differs from the stored value at byte %d)", keyName(k), firstDiff(v, want))
+		}
+	}
 	for _, k := range keys {
 		got, err := in.conn.Get(k)
 		want, live := model[k]
@@ -395,6 +410,9 @@ func c14Scenarios(tier string) []c14Scenario {
 	var out []c14Scenario
 	for _, b := range []string{"memcache", "fscache", "fscache-enc", "fscache+reopen", "fscache-api"} {
 		for _, s := range subsets {
+			if tier != "thorough" && len(s) == 3 && b != "fscache" && b != "fscache-enc" {
+				continue // quick: triples on the plain and the encrypted file-system backend only
+			}
 			out = append(out, c14Scenario{b, s})
 		}
 	}
@@ -502,7 +520,7 @@ func c14KeyNames(sc c14Scenario) []string {
 
 // c14Signature names the failing operation and the key shapes involved.
 func c14Signature(sc c14Scenario, mismatch string) string {
-	shape := map[int]string{0: "short", 1: "short#", 2: "36B(48 chars)", 3: "236B ext of 36B", 4: "191B", 5: "192B", 6: "216B", 7: "216B#0", 8: "300B ext of 36B", 9: "bytes 0-255", 10: "empty"}
+	shape := map[int]string{0: "short", 1: "short#", 2: "36B(48 chars)", 3: "236B ext of 36B", 4: "191B", 5: "192B", 6: "282B", 7: "282B#0", 8: "300B ext of 36B", 9: "bytes 0-255", 10: "empty"}
 	what := mismatch
 	if i := strings.Index(what, "): "); i >= 0 {
 		what = what[i+3:]
@@ -512,7 +530,7 @@ func c14Signature(sc c14Scenario, mismatch string) string {
 	}
 	_ = shape
 	cls := "wrong answer"
-	for _, c := range []string{"empty path", "not a directory", "is a directory", "file name too long", "no such file", "changed after the caller modified", "want the not-exist error", "must report the not-exist error", "first difference", "keys"} {
+	for _, c := range []string{"returned buffer changed", "empty path", "not a directory", "is a directory", "file name too long", "no such file", "changed after the caller modified", "want the not-exist error", "must report the not-exist error", "first difference", "keys"} {
 		if strings.Contains(mismatch, c) {
 			cls = c
 			break
